@@ -2,6 +2,7 @@
    Property theorems only; the model is Bac.Ssm (ClientSSM / ServerSSM transcribed from appservice.py with the
    fix: commits of known_findings/C04.json applied), proofs in Bac.SsmC04a / Bac.SsmC04 / Bac.SsmC05. *)
 From Bac Require Import Base PyRt Ssm SsmFacts SsmC04a SsmC04 SsmC04t SsmC04s SsmC04w SsmC04h SsmC05 SsmWorld.
+From Bac Require Iocb IocbFacts.
 Open Scope Z_scope.
 
 (* over any sequence of inbound frames and time-outs, in any order and at any instants, a client transaction hands
@@ -106,6 +107,37 @@ Theorem C04_server_timeout_no_residue : forall st, pre_s st -> post_s st (s_proc
 Proof. exact s_timeouts_post. Qed.
 Print Assumptions C04_server_timeout_no_residue.
 
+(* the IOCB layer (IOController / IOQController / SieveQueue / ApplicationIOController, model Bac.Iocb): over ANY history of
+   submissions (also several to one address, also refused below), confirmations from below, client aborts and batches of
+   deferred functions, every IOCB's callback has fired exactly once if it is COMPLETED/ABORTED and not at all otherwise *)
+Theorem C04_iocb_once : forall ops i b, Iocb.lookup i (Iocb.w_io (Iocb.run_world ops)) = Some b -> IocbFacts.inv_io b.
+Proof. exact IocbFacts.iocb_once. Qed.
+Print Assumptions C04_iocb_once.
+
+(* complete_io / abort_io are idempotent, and more: a finished IOCB is left exactly as it is by every later operation *)
+Theorem C04_iocb_finished_untouched : forall ops w i b, Iocb.lookup i (Iocb.w_io w) = Some b -> Iocb.terminal_io b = true ->
+  Iocb.lookup i (Iocb.w_io (fold_left (fun w o => Iocb.do_op o w) ops w)) = Some b.
+Proof. exact IocbFacts.iocb_finished_untouched. Qed.
+Print Assumptions C04_iocb_finished_untouched.
+
+(* the per-address queue advances: the deferred _trigger of an idle queue starts its first waiting IOCB (hands its request down) *)
+Theorem C04_iocb_queue_advances : forall a g w q i r b,
+  Iocb.lookup a (Iocb.w_qs w) = Some q -> Iocb.q_gen q = g -> Iocb.q_state q = 0 -> Iocb.q_queue q = i :: r ->
+  Iocb.lookup i (Iocb.w_io w) = Some b -> Iocb.i_state b = Iocb.IO_PENDING -> Iocb.i_fail b = false ->
+  let w' := Iocb.trigger a g w in
+  Iocb.lookup a (Iocb.w_qs w') = Some (Iocb.mkSq g 1 (Some i) r) /\
+  Iocb.lookup i (Iocb.w_io w') = Some (Iocb.mkIo Iocb.IO_ACTIVE (Iocb.i_cb b) false (Iocb.i_addr b)) /\
+  Iocb.w_ev w' = [20; i] :: Iocb.w_ev w.
+Proof. exact IocbFacts.trigger_advances. Qed.
+Print Assumptions C04_iocb_queue_advances.
+
+(* queue_by_address cleanup: the confirmation of the only request of an address removes that address's queue *)
+Theorem C04_iocb_queue_cleanup : forall a ok w q i,
+  Iocb.lookup a (Iocb.w_qs w) = Some q -> Iocb.q_active q = Some i -> Iocb.q_queue q = [] ->
+  Iocb.lookup a (Iocb.w_qs (Iocb.confirm a ok w)) = None.
+Proof. exact IocbFacts.confirm_cleanup. Qed.
+Print Assumptions C04_iocb_queue_cleanup.
+
 (* the handlers can raise: a retransmitted ConfirmedRequest that meets a server sending a segmented response *)
 Theorem C04_no_exn_refuted : exists s a, s_state s = SEGMENTED_RESPONSE /\ a_type a = 0 /\
   snd (s_indication a (mkH s [] 1 0 true)) = Some RuntimeErr.
@@ -140,6 +172,10 @@ Proof.
 Qed.
 Example C04_wf_request_example : wf_request (mk_creq false false true (-1) (-1) 0 9 5 12 [1]) /\ s_state fresh_server = IDLE.
 Proof. vm_compute. repeat split; discriminate. Qed.
+Example C04_iocb_example :
+  Iocb.run_ops 2 [Iocb.OSubmit 0 10 false; Iocb.OSubmit 1 10 false; Iocb.OConfirm 10 true; Iocb.ORun; Iocb.OConfirm 10 false]
+  = [10; 0; 20; 0; 10; 0; 10; 1; 21; 0; 3; 10; 3; 20; 1; 10; 1; 21; 1; 4; 30; 3; 1; 4; 1; 31; 0; 32; 1].
+Proof. vm_compute. reflexivity. Qed.
 Example C04_budget_example : cnt_ok fresh_client /\ budget fresh_client = 19.
 Proof. vm_compute. repeat split; discriminate. Qed.
 Example C04_life_example :
